@@ -20,6 +20,7 @@ func init() {
 			"R4 no frame is delivered on the strength of a declared length alone: what is handed downstream is a fully read buffer or an exact-length reader (io.ErrUnexpectedEOF on early end), never a bare io.LimitReader over the source, directly or inside io.MultiReader; " +
 			"R5 no error of a read (Read, ReadFull, ReadUvarint, CopyN, ReadFrom, ReadAll, ToBytes/ToReader) is dropped in codec/* and utils; R6 no slice bound of the form len(a)-len(b) without a dominating len(a) >= len(b) guard (no runtime fault on short input). " +
 			"ALSO: other consumers of the exact-length reader (e.g. a WriteTo) report truncation on the count still owed after their own reads. " +
+			"ALSO (round 6): The accumulating decoder loop reads another byte only while the length is strictly below the maximum. " +
 			"DOES NOT DECIDE: behaviour on specific adversarial strings beyond the guards, that the next handler drains the lazy body, int overflow of configuration arithmetic on 32-bit.",
 		Assumptions: []string{"read errors raised as panics are routed to exceptions and close the channel (C07)"},
 		Run:         runC08,
